@@ -35,6 +35,10 @@ RULE = ('random API-built designs (gen_designs: all primitive ops, widths 1..130
         "'?'), 5 illegal values on a random Input, VCD (+/- clock) and print_trace in bases 2/8/10/16 "
         'padded + one compact; tracer = default / wires_to_track=\'all\' / an explicit partial list (inspect of '
         'untracked wires compared with a default-tracer twin; expected_outputs may name untracked wires); '
+        'explicit lists that repeat wires (probe + all outputs, doubled list, random repeats); every stepping '
+        'entry point (step, step_multiple with / without expected outputs / with nsteps, CompiledSimulation.run) '
+        'on the history with an out-of-range value injected at a step k >= 1, followed by two legal steps, '
+        'compared with step() once per cycle; step_multiple scenarios with 0-4 expected wires; '
         'assertion designs: 1-2 rtl_asserts going low at chosen cycles x 4 tracer configurations (default, all, '
         'explicit list without / with the assertion wires) x exception objects of 9 classes incl. PyrtlError, '
         'a PyrtlError subclass, PyrtlInternalError, IndexError. A case is '
@@ -280,20 +284,32 @@ def build(ctx, i):
     c.ncyc = rng.randint(2, 8 if ctx.tier == 'quick' else 14)
     c.regmap, c.memmap, c.inputs = gen_designs.make_stimulus(rng, d, c.ncyc)
     r = rng.random()
-    c.track = 'all' if r < 0.2 else ('partial' if r < 0.5 else 'named')
+    c.track = 'all' if r < 0.2 else ('partial' if r < 0.42 else ('repeats' if r < 0.64 else 'named'))
     c.track_all = c.track == 'all'
     named = sorted((w.name for w in d.block.wirevector_set
                     if not isinstance(w, pyrtl.Const) and not w.name.startswith(('tmp', 'const_'))
                     and not w.name.endswith("'")))
     k = rng.randint(1, max(1, len(named) - 1))
     c.partial = sorted(set(rng.sample(named, k)) | {d.inputs[0].name})   # explicit wires_to_track list
+    if c.track == 'repeats':
+        # the caller's list names wires more than once ([probe] + all outputs, a wire listed twice in a row,
+        # the whole list twice): the trace is keyed by name, so this is still one entry per wire and cycle
+        outs = [w.name for w in d.outputs]
+        style = rng.choice(['probe+outputs', 'doubled', 'random-repeats'])
+        if style == 'probe+outputs':
+            c.partial = [rng.choice(outs)] + outs + [d.inputs[0].name]
+        elif style == 'doubled':
+            c.partial = c.partial + c.partial
+        else:
+            c.partial = c.partial + [rng.choice(c.partial) for _ in range(rng.randint(1, 3))]
+            rng.shuffle(c.partial)
     c.odd = odd
     return c
 
 
 def make_sim(c, cls, track=None):
     track = track or getattr(c, 'track', 'all' if c.track_all else 'named')
-    if track == 'partial':
+    if track in ('partial', 'repeats'):
         wtt = [c.block.wirevector_by_name[nm] for nm in c.partial]
     else:
         wtt = 'all' if track == 'all' else None
@@ -319,7 +335,7 @@ def reference_trace(c, cls):
 def channel_inspect(ctx, c, key, cls, ref=None):
     sim, tracer = make_sim(c, cls)
     rep = {'seed': ctx.seed, 'design': c.i, 'simulator': cls, 'inputs': c.inputs,
-           'wires_to_track': c.partial if getattr(c, 'track', '') == 'partial' else getattr(c, 'track', 'named')}
+           'wires_to_track': c.partial if getattr(c, 'track', '') in ('partial', 'repeats') else getattr(c, 'track', 'named')}
     for t, ins in enumerate(c.inputs):
         sim.step(dict(ins))
         tracked = set(tracer.trace)     # (`in tracer.trace` raises PyrtlError for unknown names)
@@ -368,7 +384,7 @@ def make_scenario(rng, c, trA, key, pool=None):
     kind = rng.choice(kinds)
     provided = {nm: [ins[nm] for ins in c.inputs] for nm in in_names}
     nsteps = None
-    k = rng.randint(1, min(4, len(names)))
+    k = rng.randint(0, min(4, len(names)))      # 0: step_multiple without expected outputs
     exp_names = rng.sample(names, k)
     expected = {}
     for nm in exp_names:
@@ -399,8 +415,11 @@ def make_scenario(rng, c, trA, key, pool=None):
         else:
             kind = 'normal'
     elif kind == 'err5':
-        nm = rng.choice(exp_names)
-        expected[nm] = expected[nm][:n - 1]
+        if exp_names:
+            nm = rng.choice(exp_names)
+            expected[nm] = expected[nm][:n - 1]
+        else:
+            kind = 'normal'
     bad_at = None
     if kind == 'bad-input':
         j = rng.randrange(n)
@@ -432,7 +451,7 @@ def channel_step_multiple(ctx, c, key, cls, guard, trA, exprs, meta, pool=None):
            for nm, vals in sc['expected'].items()}
     f = io.StringIO()
     rep = {'seed': ctx.seed, 'design': c.i, 'simulator': cls, 'scenario': sc['kind'],
-           'wires_to_track': c.partial if getattr(c, 'track', '') == 'partial' else getattr(c, 'track', 'named'),
+           'wires_to_track': c.partial if getattr(c, 'track', '') in ('partial', 'repeats') else getattr(c, 'track', 'named'),
            'provided_inputs': prov, 'expected_outputs': exp, 'nsteps': sc['nsteps'],
            'stop_after_first_error': sc['stop']}
     err = None
@@ -551,6 +570,100 @@ def channel_step_multiple(ctx, c, key, cls, guard, trA, exprs, meta, pool=None):
              sample=dict(rep, written=written) if (c.i < 2 and key == 'simulation') else None)
 
 
+# ------------------------------------------------------------------ channel F: stepping entry points
+def _drive(c, cls, how, hist, tail, exp_name):
+    """fresh simulator, feed `hist` through one entry point, then `tail` one step at a time.
+    -> (error class name or None, trace after the entry point, trace after the tail)"""
+    sim, tracer = make_sim(c, cls)
+    err = None
+    try:
+        if how == 'step':
+            for ins in hist:
+                sim.step(dict(ins))
+        elif how == 'run':
+            sim.run([dict(ins) for ins in hist])
+        else:
+            table = {nm: [ins[nm] for ins in hist] for nm in hist[0]}
+            kw = {}
+            if how == 'step_multiple+expected':
+                kw['expected_outputs'] = {exp_name: ['?'] * len(hist)}
+            if how == 'step_multiple+nsteps':
+                kw['nsteps'] = len(hist)
+            sim.step_multiple(table, file=io.StringIO(), **kw)
+    except pyrtl.PyrtlError:
+        err = 'PyrtlError'
+    except Exception as e:
+        err = type(e).__name__
+    t1 = trace_dict(tracer)
+    for ins in tail:
+        sim.step(dict(ins))
+    bad = [nm for nm in tracer.trace if sim.inspect(nm) != tracer.trace[nm][-1]]
+    return err, t1, trace_dict(tracer), bad
+
+
+def channel_entry_points(ctx, c, key, cls, trA):
+    """step / step_multiple (with, without expected outputs, with nsteps) / run on a history whose
+    step k >= 1 carries an out-of-range value, then two more legal steps: every entry point must leave
+    the simulator exactly where calling step() once per cycle leaves it (k cycles traced, PyrtlError,
+    same continuation); run() -- a batch call -- may refuse earlier but must stay consistent."""
+    rng = ctx.sub_rng('entry', c.i, key)
+    n = c.ncyc
+    k = rng.randint(1, n - 1)
+    target = rng.choice(c.d.inputs)
+    bad_v = rng.choice(illegal_values(len(target)))
+    hist = [dict(ins) for ins in c.inputs]
+    hist[k][target.name] = bad_v
+    tail = [{w.name: gen_designs.boundary_value(rng, len(w)) for w in c.d.inputs} for _ in range(2)]
+    legal = [dict(ins) for ins in c.inputs]
+    exp_name = sorted(trA)[0]
+    rep = {'seed': ctx.seed, 'design': c.i, 'simulator': cls, 'history': hist, 'illegal_step': k,
+           'illegal_value': {target.name: bad_v}, 'bitwidth': len(target), 'tail': tail,
+           'wires_to_track': c.partial if c.track in ('partial', 'repeats') else c.track}
+    r_err, r1, r2, r_bad = _drive(c, cls, 'step', hist, tail, exp_name)
+    first = next(iter(r1.values()))
+    if r_err != 'PyrtlError' or len(first) != k or any(r1[nm] != trA[nm][:k] for nm in r1) or \
+            any(len(v) != k + 2 for v in r2.values()) or r_bad:
+        viol(ctx, 'entry-point:%s:step' % key,
+             '%s: stepping a history with an illegal value at step %d: error %s, %d cycles traced (want PyrtlError '
+             'after %d), %d after two more legal steps, inspect/trace disagree on %s'
+             % (cls, k, r_err, len(first), k, len(next(iter(r2.values()))), r_bad), rep)
+        return
+    hows = ['step_multiple', 'step_multiple+expected', 'step_multiple+nsteps']
+    if hasattr(getattr(pyrtl, cls), 'run'):
+        hows.append('run')
+    for how in hows:
+        err, t1, t2, bad = _drive(c, cls, how, hist, tail, exp_name)
+        n1 = len(next(iter(t1.values())))
+        ctx.count('entry_points', '%s:%s:%s:%s' % (key, how, err, 'k-cycles-traced' if n1 == k else 'fewer'))
+        ctx.case(('entry', c.i, key, how, k, bad_v), nontrivial=True,
+                 sample=dict(rep, entry_point=how) if (c.i == 0 and key == 'compiled') else None)
+        if how == 'run':
+            # batch call: must refuse, must not have simulated the illegal cycle, and whatever prefix it did
+            # simulate must be the stepwise one, with a consistent continuation
+            ok = err == 'PyrtlError' and n1 <= k and all(t1[nm] == r1[nm][:n1] for nm in t1) and not bad
+            if ok and n1 != k:
+                _, _, want2, _ = _drive(c, cls, 'step', legal[:n1], tail, exp_name)
+                ok = t2 == want2
+            elif ok:
+                ok = t2 == r2
+        else:
+            ok = err == 'PyrtlError' and t1 == r1 and t2 == r2 and not bad
+        if not ok:
+            viol(ctx, 'entry-point:%s:%s' % (key, how),
+                 '%s.%s on a history with an illegal value at step %d is not equivalent to step() once per cycle: '
+                 'error %s, %d cycles traced (one at a time: PyrtlError after %d), traces equal: %s, after two more '
+                 'legal steps equal: %s, inspect/trace disagree on %s'
+                 % (cls, how, k, err, n1, k, t1 == r1, t2 == r2, bad), dict(rep, entry_point=how, trace_after=t1,
+                                                                          trace_one_at_a_time=r1))
+    # the legal history through the batch entry points
+    for how in [h for h in hows if h in ('step_multiple', 'run')]:
+        err, t1, t2, bad = _drive(c, cls, how, legal, [], exp_name)
+        if err is not None or t1 != {nm: trA[nm] for nm in t1} or bad:
+            viol(ctx, 'entry-point:%s:%s:legal' % (key, how),
+                 '%s.%s on a legal history differs from step() once per cycle (error %s)' % (cls, how, err),
+                 dict(rep, entry_point=how, history=legal))
+
+
 # ------------------------------------------------------------------ channel C
 def channel_text(ctx, c, key, cls, tracer, use_coq, exprs, meta):
     rng = ctx.sub_rng('text', c.i, key)
@@ -558,6 +671,7 @@ def channel_text(ctx, c, key, cls, tracer, use_coq, exprs, meta):
     n = len(next(iter(tr.values())))
     order = sorted(tr, key=pyrtl.simulation._trace_sort_key)   # the order the implementation lists
     rep0 = {'seed': ctx.seed, 'design': c.i, 'simulator': cls, 'inputs': c.inputs,
+            'wires_to_track': c.partial if getattr(c, 'track', '') in ('partial', 'repeats') else getattr(c, 'track', 'named'),
             'traced': {nm: tr[nm] for nm in order}}
     # the implementation's order must be a natural-sort order
     if [natkey(nm) for nm in order] != sorted(natkey(nm) for nm in order):
@@ -566,65 +680,82 @@ def channel_text(ctx, c, key, cls, tracer, use_coq, exprs, meta):
         exprs.append('sorted_case %s' % lst(txt(nm) for nm in tr))
         meta.append(('sorted', c.i, key, order, rep0))
     # ---- VCD
-    clock = rng.random() < 0.5
-    f = io.StringIO()
-    tracer.print_vcd(f, include_clock=clock)
-    text = f.getvalue()
-    ids = dict(tracer.internal_names.val_map)
-    rep = dict(rep0, channel='print_vcd', include_clock=clock, text=text)
-    sig = 'vcd:%s'
-    used = [ids[nm] for nm in order]
-    if len(set(used)) != len(used):
-        dup = sorted({x for x in used if used.count(x) > 1})
-        viol(ctx, 'vcd:identifier-collision', 'print_vcd gives the same identifier %s to different wires %s'
-                           % (dup, [nm for nm in order if ids[nm] in dup]), rep)
-    else:
+    def vcd_part():
+        clock = rng.random() < 0.5
+        f = io.StringIO()
         try:
-            decls, dump, steps = parse_vcd(text)
-            got = {i_: [] for i_ in used}
-            for tm, evs in steps:
-                for ident, v in evs:
-                    if ident == 'clk' and clock:
-                        continue
-                    got[ident].append(v)
-            ok_vals = all(got[ids[nm]] == tr[nm] for nm in order)
-            times = [tm for tm, _ in steps]
-            want_times = []
-            for t in range(n):
-                want_times.append(10 * t)
-                if clock:
-                    want_times.append(10 * t + 5)
-            want_times.append(10 * n)
-            ok_times = times == want_times
-            want_decl = ([('clk', 1)] if clock else []) + [(ids[nm], tracer._wires[nm].bitwidth) for nm in order]
-            ok_decl = decls == want_decl
-            ok_dump = dump == [(ids[nm], tr[nm][0]) for nm in order]
-            ok_width = all(v < (1 << tracer._wires[nm].bitwidth) for nm in order for v in tr[nm])
+            tracer.print_vcd(f, include_clock=clock)
         except Exception as e:
-            ok_vals = ok_times = ok_decl = ok_dump = ok_width = False
-            rep['parse_error'] = repr(e)
-        for ok, what in ((ok_vals, 'values'), (ok_times, 'timestamps'), (ok_decl, 'declarations'),
-                         (ok_dump, 'dumpvars'), (ok_width, 'value-exceeds-declared-width')):
-            if not ok:
-                viol(ctx, sig % what, 'print_vcd text does not encode the trace (%s)' % what, rep)
-        if use_coq and len(text) <= COQ_TEXT_LIMIT:
-            rows = lst('(%s, %s, %d, %s)' % (txt(nm), txt(ids[nm]), tracer._wires[nm].bitwidth, zlist(tr[nm]))
-                       for nm in order)
-            ctx.count('coq_decoded_texts', 'print_vcd')
-            exprs.append('vcd_case %s %s %s' % ('true' if clock else 'false', rows, txt(text)))
-            meta.append(('vcd', c.i, key, [tr[nm] for nm in order],
-                         [(ids[nm], tracer._wires[nm].bitwidth) for nm in order], clock, rep))
-    ctx.case(('vcd', c.i, key, clock, hashlib.sha1(text.encode()).hexdigest()), nontrivial=n >= 2,
-             sample={'design': c.i, 'channel': 'print_vcd', 'include_clock': clock, 'head': text[:300]}
-             if c.i == 0 and key == 'simulation' else None)
-    ctx.count('vcd_sanitised_names', sum(1 for nm in order if ids[nm] != nm))
+            listed = [w.name for w in tracer.wires_to_track] if isinstance(tracer.wires_to_track, list) else []
+            viol(ctx, 'print_vcd:raised:%s%s' % (type(e).__name__,
+                                                 ':repeated-wires' if len(set(listed)) != len(listed) else ''),
+                 'print_vcd raised %r on a %d-cycle trace of %s (wires_to_track=%s)'
+                 % (e, n, cls, rep0['wires_to_track']), dict(rep0, channel='print_vcd', include_clock=clock))
+            return
+        text = f.getvalue()
+        ids = dict(tracer.internal_names.val_map)
+        rep = dict(rep0, channel='print_vcd', include_clock=clock, text=text)
+        sig = 'vcd:%s'
+        used = [ids[nm] for nm in order]
+        if len(set(used)) != len(used):
+            dup = sorted({x for x in used if used.count(x) > 1})
+            viol(ctx, 'vcd:identifier-collision', 'print_vcd gives the same identifier %s to different wires %s'
+                               % (dup, [nm for nm in order if ids[nm] in dup]), rep)
+        else:
+            try:
+                decls, dump, steps = parse_vcd(text)
+                got = {i_: [] for i_ in used}
+                for tm, evs in steps:
+                    for ident, v in evs:
+                        if ident == 'clk' and clock:
+                            continue
+                        got[ident].append(v)
+                ok_vals = all(got[ids[nm]] == tr[nm] for nm in order)
+                times = [tm for tm, _ in steps]
+                want_times = []
+                for t in range(n):
+                    want_times.append(10 * t)
+                    if clock:
+                        want_times.append(10 * t + 5)
+                want_times.append(10 * n)
+                ok_times = times == want_times
+                want_decl = ([('clk', 1)] if clock else []) + [(ids[nm], tracer._wires[nm].bitwidth) for nm in order]
+                ok_decl = decls == want_decl
+                ok_dump = dump == [(ids[nm], tr[nm][0]) for nm in order]
+                ok_width = all(v < (1 << tracer._wires[nm].bitwidth) for nm in order for v in tr[nm])
+            except Exception as e:
+                ok_vals = ok_times = ok_decl = ok_dump = ok_width = False
+                rep['parse_error'] = repr(e)
+            for ok, what in ((ok_vals, 'values'), (ok_times, 'timestamps'), (ok_decl, 'declarations'),
+                             (ok_dump, 'dumpvars'), (ok_width, 'value-exceeds-declared-width')):
+                if not ok:
+                    viol(ctx, sig % what, 'print_vcd text does not encode the trace (%s)' % what, rep)
+            if use_coq and len(text) <= COQ_TEXT_LIMIT:
+                rows = lst('(%s, %s, %d, %s)' % (txt(nm), txt(ids[nm]), tracer._wires[nm].bitwidth, zlist(tr[nm]))
+                           for nm in order)
+                ctx.count('coq_decoded_texts', 'print_vcd')
+                exprs.append('vcd_case %s %s %s' % ('true' if clock else 'false', rows, txt(text)))
+                meta.append(('vcd', c.i, key, [tr[nm] for nm in order],
+                             [(ids[nm], tracer._wires[nm].bitwidth) for nm in order], clock, rep))
+        ctx.case(('vcd', c.i, key, clock, hashlib.sha1(text.encode()).hexdigest()), nontrivial=n >= 2,
+                 sample={'design': c.i, 'channel': 'print_vcd', 'include_clock': clock, 'head': text[:300]}
+                 if c.i == 0 and key == 'simulation' else None)
+        ctx.count('vcd_sanitised_names', sum(1 for nm in order if ids[nm] != nm))
+
+    vcd_part()
     # ---- print_trace
     il = max(len(nm) for nm in order)
     spacey = any(' ' in nm for nm in order)
     compact_base = rng.choice([2, 8, 10, 16])
     for base, compact in [(2, False), (8, False), (10, False), (16, False), (compact_base, True)]:
         f = io.StringIO()
-        tracer.print_trace(f, base=base, compact=compact)
+        try:
+            tracer.print_trace(f, base=base, compact=compact)
+        except Exception as e:
+            viol(ctx, 'print_trace:raised:%s' % type(e).__name__,
+                 'print_trace(base=%d, compact=%s) raised %r on a %d-cycle trace of %s' % (base, compact, e, n, cls),
+                 dict(rep0, channel='print_trace', base=base, compact=compact))
+            continue
         text = f.getvalue()
         rep = dict(rep0, channel='print_trace', base=base, compact=compact, text=text)
         sig = 'print_trace:base%d%s:' % (base, ':compact' if compact else '')
@@ -922,7 +1053,7 @@ def run(ctx):
         ctx.count('track', c.track)
         for si, (key, cls, guard) in enumerate(SIMS):
             try:
-                ref = reference_trace(c, cls) if c.track == 'partial' else None
+                ref = reference_trace(c, cls) if c.track in ('partial', 'repeats') else None
                 sim, tracer = channel_inspect(ctx, c, key, cls, ref)
             except Exception as e:
                 viol(ctx, 'simulator-failed:%s' % key, '%s failed on an API-built design: %r' % (cls, e),
@@ -947,6 +1078,7 @@ def run(ctx):
                 channel_step_multiple(ctx, c, key, cls, guard, trA, exprs, meta)
             channel_text(ctx, c, key, cls, tracer, si == coq_sim, exprs, meta)
             channel_illegal(ctx, c, key, cls, sim, tracer, guard_pairs)
+            channel_entry_points(ctx, c, key, cls, ref if ref is not None else trA)
     for j in range(nassert):
         channel_assert(ctx, j, exprs, meta)
     directed_prefix_names(ctx, exprs, meta)
